@@ -141,7 +141,7 @@ def direction_a_nodes(ctx, fams, polys):
             continue
         g, dim = polys[fam["name"]]
         local = np.asarray(g.Get_Local_Coords())
-        tables = [("N", g._N, None), ("dN", g._dN, 0), ("ddN", g._ddN, 1)]
+        tables = [("N", g._N, None), ("dN", g._dN, 0), ("ddN", g._ddN, 1), ("dddN", g._dddN, 2), ("ddddN", g._ddddN, 3)]
         cands = [("nodes as returned", local), ("nodes as float", local.astype(float))]
         ip = np.rint(local.astype(float).mean(0))
         if np.allclose(ip, local.astype(float).mean(0)) or local.dtype.kind in "iu":
@@ -198,6 +198,25 @@ def run(ctx):
                 ctx.violation(f"{pred}/{v['name']}", f"{v['name']}: {label} fails for {v[pred][:6]} (indices: derivative order, function, direction / function, node / exponent)", {"family": v["name"], "predicate": pred, "failing": v[pred], "table": byname[v['name']]})
     direction_a(ctx, fams, polys)
     direction_a_nodes(ctx, fams, polys)
+    # the numerical reading of a callable (used when a table is written with array functions the polynomial ring cannot run)
+    # must agree with the exact reading: compared on one function and one derivative entry of every Lagrange family
+    from harness.polyring import fit_callable
+
+    nfit = 0
+    for fam in fams:
+        if fam["kind"] != "lagrange":
+            continue
+        g, dim = polys[fam["name"]]
+        for label, fn, terms in (("N", g._N()[-1, 0], fam["N"][-1]), ("dN", np.asarray(g._dN()).reshape(g.nPe, dim)[-1, 0], fam["D"][0][-1][0])):
+            got, _ = snap(fit_callable(fn, dim))
+            a = {tuple(e): Fraction(c[0], c[1]) for e, c in got}
+            b = {tuple(e): Fraction(c[0], c[1]) for e, c in terms}
+            if any(abs(float(a.get(k, 0) - b.get(k, 0))) > 1e-9 for k in set(a) | set(b)):
+                from harness.core import MachineryError
+
+                raise MachineryError(f"numerical reading of {label} of {fam['name']} disagrees with the exact one: {got} / {terms}")
+            nfit += 1
+    ctx.section("numerical_reading_selftest", callables=nfit)
     # binding self-test (thorough): corrupt one coefficient and drop one term -> TLC must reject
     if ctx.thorough:
         import copy
